@@ -119,6 +119,12 @@ struct WkdRun {
         std::vector<MAttr> L = list_of_pattern(p, kind == 5);
         std::vector<size_t> nonfixed; for (size_t i = 0; i < p.size(); i++) if (p[i].st != ST_FIXED) nonfixed.push_back(i);
         auto sortL = [&]() { std::sort(L.begin(), L.end(), [](const MAttr& a, const MAttr& b) { return a.idx < b.idx; }); };
+        // systems with more than 32 / 64 slots: half of the time the slot that is added is one whose index is congruent (mod 64, else mod 32) to a
+        // slot already in the list - the two entries that a bitmap indexed by (idx mod word size) cannot tell apart
+        if (p.size() > 32 && ((mut >> 16) & 1) && !L.empty()) {
+            std::vector<size_t> cong; for (int m : {64, 32}) { for (size_t j : nonfixed) for (auto& a : L) if (j != a.idx && j % (size_t) m == a.idx % (size_t) m) { cong.push_back(j); break; } if (!cong.empty()) break; }
+            if (!cong.empty()) { nonfixed = cong; env.count("probe:added_slot_congruent_to_listed_slot_mod_word_size"); }
+        }
         switch (kind) {
         case 1: if (!L.empty()) { MAttr& a = L[pick % L.size()]; a.id = Bn::mod(Bn::add(a.id, Bn(1)), K().two256); } else if (!nonfixed.empty()) { L.push_back({(uint32_t) nonfixed[pick % nonfixed.size()], Bn(7), false}); } break;
         case 2: if (!nonfixed.empty()) { Bn v = value_of_code(code); if (Bn::mod(v, K().r).is_zero()) v = Bn(5); L.push_back({(uint32_t) nonfixed[pick % nonfixed.size()], v, false}); sortL(); } break;
@@ -297,7 +303,9 @@ struct WkdRun {
             resolve(keys[pi].pat, alt.empty() ? op.s : alt, b * (size_t) sys.l, false, to, nxt);
             // the Go wrapper reallocates the slot array to the parent's count before the call
             KeyM& kk = keys[ki];
-            { JAttrs jf(kk.ndlist, false), jt(to, false); if (jf.share_array_with(jt) || jt.share_array_with(jf)) env.count("fault:from_and_to_lists_are_views_of_one_array");
+            // (the list the key was derived with may have carried the omit-all switch; it says nothing about the target and changes nothing here)
+            { bool from_flag = ((op.arg(0) >> 1) + (int64_t) b) % 3 == 0; if (from_flag) env.count("fault:adjust_from_list_carries_omit_all_switch");
+              JAttrs jf(kk.ndlist, from_flag), jt(to, false); if (jf.share_array_with(jt) || jt.share_array_with(jf)) env.count("fault:from_and_to_lists_are_views_of_one_array");
               bool self = inplace && b == 1 && kk.ndlist.empty(); if (self) env.count("fault:adjust_in_place_key_is_its_own_parent");
               call_begin(1); R.jv_wk_adjust_nd(view, kk.sk, self ? kk.sk : keys[pi].sk, &jf.l, &jt.l); expect_no_draws("adjust_nondelegable"); }
             std::vector<Slot> before = kk.pat; std::vector<MAttr> fromL = kk.ndlist;
@@ -330,8 +338,10 @@ struct WkdRun {
     // The precomputed product for list L as a deployment holds it: computed directly, or - every other time - kept from an
     // earlier list and adjusted to L (one step from a neighbour list, or a chain through the empty list). The property makes
     // the two interchangeable for everything that consumes a precomputed value.
+    // how the caller wrote an order-free list down (see JAttrs): ascending half of the time
+    uint64_t list_order(uint64_t salt) { uint64_t h = mix3((uint64_t) plan.c("setup_seed"), (uint64_t) env.step, salt); int k = (int) (h % 4); if (k >= 2) env.count(k == 2 ? "fault:list_written_in_descending_slot_order" : "fault:list_written_in_arbitrary_slot_order"); return k < 2 ? 0 : k == 2 ? 1 : 2 + (h >> 8) % 1000; }
     void make_pre(Buf& pre, const std::vector<MAttr>& L) {
-        JAttrs ja(L, false); env.lib_calls++;
+        JAttrs ja(L, false, false, list_order(0x50)); env.lib_calls++;
         int how = (int) ((env.lib_calls + (uint64_t) env.step) % 4);
         if (how == 0 || how == 2) { R.jv_wk_precompute(view, pre, sys.params, &ja.l); return; }
         std::vector<MAttr> from = L;
@@ -364,7 +374,7 @@ struct WkdRun {
     void op_precomp(const Op& op) {
         KeyM* pk = pick_key(op.arg(0)); std::vector<Slot> pat = pk ? pk->pat : std::vector<Slot>((size_t) sys.l);
         PreM p; p.list = derive_list(pat, op.arg(1)); p.pre.alloc(R.sz(JV_SZ_WK_PRE));
-        JAttrs ja(p.list, false); env.lib_calls++; R.jv_wk_precompute(view, p.pre, sys.params, &ja.l);
+        JAttrs ja(p.list, false, false, list_order(0x53)); env.lib_calls++; R.jv_wk_precompute(view, p.pre, sys.params, &ja.l);
         env.soft(w.c1(w.field<G1v>(JV_OK_WK_PRE, p.pre, 0)) == w.c1(expected_prodexp(p.list)), "C14", "precompute:value", "precompute(" + list_str(p.list) + ") != g3*prod h_i^a_i");
         env.logf("PRECOMP %s", list_str(p.list).c_str());
         env.add_case("precomp " + std::to_string(p.list.size()), false);
@@ -394,7 +404,7 @@ struct WkdRun {
 
     void op_enc(const Op& op) {
         KeyM* pk = pick_key(op.arg(1)); std::vector<Slot> pat = pk ? pk->pat : std::vector<Slot>((size_t) sys.l);
-        std::vector<MAttr> L = derive_list(pat, op.arg(2)); JAttrs ja(L, false);
+        std::vector<MAttr> L = derive_list(pat, op.arg(2)); JAttrs ja(L, false, false, list_order(0x51));
         CtM c; c.ct.alloc(R.sz(JV_SZ_WK_CT)); c.exps = exps_of_list(L, sys.l);
         uint64_t ss = (uint64_t) op.arg(0);
         call_begin(ss ^ 0x5555); R.jv_wk_random_gt(view, c.msg.b, jv_rand_cb);
@@ -502,7 +512,7 @@ struct WkdRun {
 
     // verify and verify_precomputed must agree on every signature (C14); returns the verdict
     bool verify_both(const std::vector<MAttr>& L, Buf& sig, const Bn& msg, const std::string& what) {
-        uint8_t m32[32]; msg.to_le(m32, 32); JAttrs ja(L, false);
+        uint8_t m32[32]; msg.to_le(m32, 32); JAttrs ja(L, false, false, list_order(0x52));
         env.lib_calls += 3;
         int v1 = R.jv_wk_verify(view, sys.params, &ja.l, sig, m32);
         Buf pre(R.sz(JV_SZ_WK_PRE)); make_pre(pre, L);
@@ -640,8 +650,8 @@ struct WkdScenario : Scenario {
     int step_offset() const override { return 1; }
 
     static inline thread_local bool g_wide_directives = false;
-    static std::string directive(Rng& r, int bias_hide) {
-        if (g_wide_directives && !r.chance(1, 6)) return r.chance(1, 5) ? "-~" : "-";   // wide systems: five slots in six are left as they are
+    static std::string directive(Rng& r, int bias_hide, int slot = 100) {
+        if (g_wide_directives && slot >= 8 && !r.chance(1, 6)) return r.chance(1, 5) ? "-~" : "-";   // wide systems: five slots in six are left as they are
         int k = r.range(0, 9);
         if (k < 4) return "f:" + value_codes()[r.below(value_codes().size())] + (r.chance(1, 3) ? "~" : "");
         if (k < 4 + bias_hide) return r.chance(1, 3) ? "h~" : "h";
@@ -649,7 +659,7 @@ struct WkdScenario : Scenario {
     }
     static std::vector<std::string> directives(Rng& r, int l, int blocks = 1) {
         std::vector<std::string> v; int bias = r.range(1, 4);
-        for (int b = 0; b < blocks; b++) for (int i = 0; i < l; i++) v.push_back(directive(r, bias));
+        for (int b = 0; b < blocks; b++) for (int i = 0; i < l; i++) v.push_back(directive(r, bias, i));   // (wide systems: the first eight slots are as busy as in a small system - their partners 32 and 64 slots up exist)
         return v;
     }
 
@@ -659,9 +669,19 @@ struct WkdScenario : Scenario {
         int l = (int) kn("l", r.range(0, 6)); if (r.chance(1, 12)) l = r.range(7, 9);
         // wide systems: more slots than any fixed-width shortcut (a 64-bit slot bitmap, a one-byte count, a length quotient that is only
         // wrong from 12 entries on) survives; most slots stay free so that keys carry long free-slot arrays
-        bool wide = kn("wide", 0) != 0; if (wide) { int w = (int) r.below(3); l = w == 0 ? r.range(12, 23) : w == 1 ? r.range(24, 64) : r.range(65, 80); g_wide_directives = true; }
+        bool wide = kn("wide", 0) != 0; if (wide) { int w = (int) r.below(4); l = w == 0 ? r.range(12, 23) : w == 1 ? r.range(24, 64) : r.range(65, 80); g_wide_directives = true; }
         p.cfg["l"] = l; p.cfg["sig"] = kn("sig", r.chance(3, 4)); p.cfg["setup_seed"] = (int64_t) (r.next() >> 1);
         if (kn("hopenum", 0)) return generate_hopenum(r, kn("__idx", 0), kn("stride", 1));
+        if (kn("hopsizes", 0)) {
+            // every slot count once: a system with n slots, the master's delegate key with all n slots free (and one with the first slot fixed),
+            // parameters and keys through the store in both forms - whatever a marshalling loop does per batch of k entries meets every residue
+            int n = (int) (kn("__idx", 0) % 90); p.cfg["l"] = n; p.cfg["sig"] = (n / 3) % 2;
+            std::vector<std::string> none((size_t) n, "-"), one = none; if (n) one[0] = "f:2";
+            p.ops.push_back({"KEYGEN", {(int64_t) (r.next() >> 1), 0, 0}, none}); p.ops.push_back({"KEYGEN", {(int64_t) (r.next() >> 1), 0, 0}, one});
+            for (int comp = 0; comp < 2; comp++) { p.ops.push_back({"HOP", {2, 0, comp, 1}, {}}); p.ops.push_back({"HOP", {2, 1, comp, (n & 1)}, {}}); p.ops.push_back({"HOP", {0, 0, comp, 1}, {}}); }
+            p.ops.push_back({"ENC", {(int64_t) (r.next() >> 1), 1, 0, 1}, {}}); p.ops.push_back({"DEC", {0, 1}, {}}); p.ops.push_back({"DEC", {0, 0}, {}});
+            return p;
+        }
         int focus = (int) kn("focus", 0);     // 0 mixed, 11..14 emphasise the ops of that property, 15 marshalling hops
         int nops = r.range(3, (int) kn("maxops", 30));
         // weights per op kind (swarm: each run draws its own mix)
@@ -679,6 +699,7 @@ struct WkdScenario : Scenario {
         static const char* sfl[] = {"storm8:3", "tupler", "tuplerp1", "tuple:r-1", "tuple:1", "tuple:2", "digit:xm1", "storm8:9"};
         // (a scalar from the GLV exceptional-addition family as the drawn value: every G1 multiplication by it meets a doubling or a cancellation part-way)
         auto maybe_fault = [&](Op& o) { if (r.chance(1, 6)) { if (r.chance(1, 6)) o.s.push_back("tuple:" + glv_code(r)); else if (o.kind == "SIGN" && r.chance(1, 5)) o.s.push_back("tuple:0"); else o.s.push_back(sfl[r.below(8)]); } };
+        int64_t nenc = 0;
         for (int n = 1; n < nops; n++) {
             int x = (int) r.below((uint64_t) tot), k = 0; while (x >= wts[k]) { x -= wts[k]; k++; }
             int64_t ss = (int64_t) (r.next() >> 1); std::string kind = kinds[k];
@@ -686,12 +707,14 @@ struct WkdScenario : Scenario {
             else if (kind == "QUALIFY") { Op o{kind, {ss, (int64_t) r.below(64), r.chance(1, 6), r.chance(1, 3)}, directives(r, l)}; maybe_fault(o); p.ops.push_back(o); }
             else if (kind == "ADJUST") p.ops.push_back({kind, {(int64_t) r.below(1 << 12)}, directives(r, l, r.range(2, 4))});
             else if (kind == "RESAMPLE") { Op o{kind, {ss, (int64_t) r.below(64), r.chance(2, 3)}, {}}; maybe_fault(o); p.ops.push_back(o); }
-            else if (kind == "PRECOMP") p.ops.push_back({kind, {(int64_t) r.below(64), (int64_t) r.below(1 << 16)}, {}});
+            else if (kind == "PRECOMP") p.ops.push_back({kind, {(int64_t) r.below(64), (int64_t) r.below(1 << 17)}, {}});
             else if (kind == "ADJPRE") p.ops.push_back({kind, {(int64_t) r.below(64), (int64_t) r.below(64), (int64_t) r.below(1 << 24)}, {}});
             else if (kind == "ENC") {
-                Op o{kind, {ss, (int64_t) r.below(64), r.chance(1, 2) ? 0 : (int64_t) r.below(1 << 16), r.chance(1, 2)}, {}};
+                Op o{kind, {ss, (int64_t) r.below(64), r.chance(1, 2) ? 0 : (int64_t) r.below(1 << 17), r.chance(1, 2)}, {}};
+                bool cong = wide && r.chance(1, 2); if (cong) o.a[2] = 2 | ((int64_t) r.below(16) << 4) | ((int64_t) r.below(256) << 8) | (1 << 16);   // the key's list plus one slot, preferably congruent to a listed one
                 if (r.chance(1, 5)) { const char* sf[] = {"storm8:3", "tupler", "tuplerp1", "tuple:r-1", "tuple:0", "tuple:1", "digit:xm1", "storm8:9"}; o.s.push_back(sf[r.below(8)]); }
-                p.ops.push_back(o);
+                p.ops.push_back(o); nenc++;
+                if (cong) { p.ops.push_back({"DEC", {nenc - 1, o.a[1]}, {}}); n++; }   // ... and the key it was derived from tries it at once
             }
             else if (kind == "DEC") p.ops.push_back({kind, {(int64_t) r.below(64), (int64_t) r.below(64)}, {}});
             else if (kind == "DECM") p.ops.push_back({kind, {(int64_t) r.below(64)}, {}});
